@@ -2,6 +2,7 @@
 from lib import core, gen
 
 LEVEL = 'proof'
+HISTORY = {}                  # id -> calls made before it on the same thread (history cases)
 BBH_FEATURES = []      # harness command families this check needs (fallback build, lib/core.py build_bbh)
 LIMITS = [0, 1, 2, 3, 4, 5, 6, 8, 11, 16, 23, 37, 64, 100, 173, 300, 1000]
 REF_BUDGET = 300000          # base steps the extracted reference is asked to run
@@ -70,6 +71,18 @@ def run(rep, tier, seed):
     h = core.run_bbh(lines)
     m = core.run_bbm(lines)
     diffs = core.diff_answers(cs, h, m)
+    # HISTORIES: sibling programs (one-slot edits of one table, also tables of 9+ slots) asked in a row on ONE thread:
+    # the answer must not depend on what was asked before (per-thread caches, memo tables with lossy keys, reused buffers)
+    hrng = core.mkrng(seed, 'C01-hist')
+    hcs = gen.history_cases(hrng, 120 if tier == 'quick' else 1500, lambda r, S, C: (lambda lim: (lambda p: f'quick|{p}|{lim}'))(r.choice([5, 13, 30, 100, 400])))
+    hl = [f'{i}|{l}' for i, l in hcs]
+    hh, hm = core.run_bbh(hl, threads=1), core.run_bbm(hl)
+    diffs += core.diff_answers(hcs, hh, hm)
+    cs = cs + hcs
+    h.update(hh)
+    m.update(hm)
+    global HISTORY
+    HISTORY = gen.history_of(hcs)
     # spec-level oracle on every implementation answer within the budget
     olines = []
     for cid, line in cs:
@@ -125,6 +138,7 @@ def search(rep, diffs, fails):
         return compare_with_ref(a, r)
     done = 0
     for cid, line, why in fails[:3]:
+        why = gen.hist_note(why, HISTORY.get(cid))
         _, prog, lim = line.split('|')
         lim = int(lim)
         l2 = shrink_limit(prog, lim, lambda p, l: spec_fails(p, l) is not None)
